@@ -199,7 +199,7 @@ Lemma ref_node_unfold dt nillable u nm ats text kids :
   refn dt nillable (IN u nm ats text kids) =
   if spec_nil ats then
     if nillable && match kids with [] => true | _ => false end && match text with [] => true | _ => false end
-       && forallb is_xsi ats
+       && forallb is_meta ats
     then match actual_type S names uris dt ats with Some _ => Some PNone | None => None end
     else None
   else
@@ -207,7 +207,7 @@ Lemma ref_node_unfold dt nillable u nm ats text kids :
     | None => None
     | Some (RB k) =>
         match kids with
-        | [] => if forallb is_xsi ats then Some (PLeaf (spec_tag k) text) else None
+        | [] => if forallb is_meta ats then Some (PLeaf (spec_tag k) text) else None
         | _ => None
         end
     | Some (RC ct) =>
@@ -259,7 +259,7 @@ Lemma flags_node_unfold dt nillable u nm ats text kids :
   | Some (RB k) => match text with [] => [6%N] | _ => [] end
   | Some (RC ct) =>
       match simple_kind simple ct with
-      | Some _ => match text with [] => [6%N] | _ => [] end
+      | Some k => (if N.eqb (spec_tag k) tag_str then [] else [9%N]) ++ match text with [] => [6%N] | _ => [] end
       | None =>
       match kids with
       | [] => match text with
@@ -434,14 +434,16 @@ Proof.
   - cbn [orb] in Hok. apply negb_true_iff in Hok. exact Hok.
 Qed.
 
-Lemma skip_xsi env a ia : erase_attr env a = Some ia -> is_xsi ia = true -> skip_attr env a = true.
+Lemma skip_xsi env a ia : erase_attr env a = Some ia -> is_meta ia = true -> skip_attr env a = true.
 Proof.
-  intros Ea Hx. rewrite (is_xsi_attr _ _ _ Ea) in Hx. apply uri_is_true in Hx.
-  unfold skip_attr. rewrite Hx. apply xsi_is_skipped.
+  intros Ea Hx. pose proof (erase_attr_shape _ _ _ Ea) as [Hns _]. unfold is_meta in Hx. rewrite Hns in Hx.
+  unfold skip_attr. destruct (attr_ns a env) as [u|]; [|discriminate].
+  apply existsb_exists in Hx as [m [Hin Hm]]. apply str_eqb_true in Hm. subst m.
+  pose proof meta_skipped as H. rewrite forallb_forall in H. exact (H _ Hin).
 Qed.
 
 Lemma add_attrs_all_xsi env real : forall ats ias acc,
-  omap (erase_attr env) ats = Some ias -> forallb is_xsi ias = true ->
+  omap (erase_attr env) ats = Some ias -> forallb is_meta ias = true ->
   add_attrs S names kinds env real ats acc = acc /\ count_real env ats = O.
 Proof.
   induction ats as [|a ats IH]; intros ias acc H Hx; cbn in H.
@@ -462,7 +464,7 @@ Proof.
   - destruct (erase_attr env a) as [ia|] eqn:Ea; [|discriminate].
     destruct (omap (erase_attr env) ats) as [ias'|] eqn:Eo; [|discriminate].
     inversion H; subst. cbn [spec_attrs] in Hs. cbn [add_attrs].
-    destruct (is_xsi ia) eqn:Hx.
+    destruct (is_meta ia) eqn:Hx.
     + rewrite (skip_xsi _ _ _ Ea Hx). now apply IH with ias'.
     + pose proof (erase_attr_shape _ _ _ Ea) as [Hns Hnm].
       destruct ia as [[iu inm] iv]. cbn [fst snd] in *. subst inm iu.
@@ -491,7 +493,7 @@ Lemma spec_attrs_nonempty ct : forall ias acc acc',
 Proof.
   induction ias as [|ia ias IH]; intros acc acc' Hs Hne; cbn [spec_attrs] in Hs.
   - inversion Hs; subst. destruct Hne as [Hne|Hne]; [exact Hne|discriminate Hne].
-  - destruct (is_xsi ia) eqn:Hx.
+  - destruct (is_meta ia) eqn:Hx.
     + apply (IH _ _ Hs). destruct Hne as [Hne|Hne]; [now left|right].
       unfold no_real_attrs in *. cbn in Hne. now rewrite Hx in Hne.
     + destruct (fst (fst ia)); [destruct (snd ia); discriminate|].
@@ -512,7 +514,7 @@ Proof.
     destruct (omap (erase_attr env) ats) as [ias'|] eqn:Eo; [|discriminate].
     inversion H; subst. cbn [spec_attrs] in Hs. cbn [count_real].
     unfold no_real_attrs in Hn. cbn [forallb] in Hn.
-    destruct (is_xsi ia) eqn:Hx.
+    destruct (is_meta ia) eqn:Hx.
     + rewrite (skip_xsi _ _ _ Ea Hx). cbn [andb] in Hn. now apply (IH ias' acc acc').
     + pose proof (erase_attr_shape _ _ _ Ea) as [Hns _].
       destruct (fst (fst ia)) as [u|] eqn:Eu; [destruct (snd ia); discriminate|].
@@ -659,7 +661,7 @@ Proof.
   destruct x as [u nm ats text kids]. rewrite ref_node_unfold. cbn [i_attrs].
   destruct (spec_nil ats); [reflexivity|].
   destruct (actual_type S names uris dt ats) as [[k|ct]|]; [| |discriminate].
-  - destruct kids; [|discriminate]. destruct (forallb is_xsi ats); discriminate.
+  - destruct kids; [|discriminate]. destruct (forallb is_meta ats); discriminate.
   - destruct (simple_kind simple ct).
     + destruct kids; [|discriminate].
       destruct (spec_attrs S names kinds ct ats []) as [[|f fs]|]; discriminate.
@@ -768,7 +770,7 @@ Proof.
               match (match iks with [] => match txt with Some t => t | None => [] end
                                  | _ => if all_space (match txt with Some t => t | None => [] end) then []
                                         else match txt with Some t => t | None => [] end end) with
-              | [] => true | _ => false end && forallb is_xsi ias) eqn:Ec; [|discriminate].
+              | [] => true | _ => false end && forallb is_meta ias) eqn:Ec; [|discriminate].
     apply andb_true_iff in Ec as [Ec Hx]. apply andb_true_iff in Ec as [Ec Ht].
     apply andb_true_iff in Ec as [_ Hk].
     destruct iks; [|discriminate]. destruct ks; [|discriminate].
@@ -786,7 +788,7 @@ Proof.
     destruct r as [k|ct].
     + (* a leaf *)
       destruct iks; [|discriminate]. destruct ks; [|discriminate].
-      destruct (forallb is_xsi ias) eqn:Hx; [|discriminate].
+      destruct (forallb is_meta ias) eqn:Hx; [|discriminate].
       inversion Hr; subst v.
       destruct (add_attrs_all_xsi env' (RB k) _ _ [] Ea Hx) as [Hadd Hcnt].
       rewrite Hadd, Hcnt. cbn [kids_loop dbind].
@@ -803,6 +805,7 @@ Proof.
           destruct (find (fun p => qn_eqb (fst p) (c_ns ct, c_name ct)) simple) as [pr|] eqn:Ef; [|discriminate].
           inversion Esk; subst sk. apply find_some in Ef as [Hin _].
           unfold simple_ok in Hsimple. rewrite forallb_forall in Hsimple. apply N.eqb_eq. exact (Hsimple _ Hin). }
+        rewrite Htag, N.eqb_refl in Hf. cbn [app] in Hf.
         destruct txt as [[|c t]|]; try discriminate Hf.
         cbn [has_text negb andb].
         destruct (no_real_attrs ias) eqn:Enr.
